@@ -154,6 +154,9 @@ func lzhuf.NewReader(r, crc16) (d, err)
   requires src: r != nil
   ensures inv: err == nil ==> d != nil && ReaderInv(d)
   ensures fresh: err == nil ==> d.state.pos == 0 && d.state.buf.len == 0 && d.err == nil && d.crc16 == crc16 && d.r.err == nil
+  # the canonical initial window: N-F spaces (a back-reference into it decodes to spaces)
+  ensures window-of-spaces: err == nil ==> forall k :: 0 <= k && k < _N - _F ==> d.z.textBuf[k] == ' '
+  loop 0 invariant spaces: 0 <= i && i <= _N - _F && forall k :: 0 <= k && k < i ==> d.z.textBuf[k] == ' '
   loop 0 invariant d: d != nil && d.z != nil
   loop 0 decreases _N - _F - i
 
